@@ -67,14 +67,7 @@ def oracle(ctx, prog, sched, cl, raw):
     return None
 
 def gen_schedules(ctx, n):
-    out = []
-    # corpus first
-    cp = os.path.join(VERIF, 'corpus', 'C12.txt')
-    if os.path.exists(cp):
-        for l in open(cp):
-            l = l.split('#')[0].split()
-            if len(l) == 2: out.append((l[0], l[1]))
-    # parking sweeps: victim parked after `point` steps while the others complete
+    out = [c for c in corpus('C12') if len(c) == 2]
     for prog in PROGS[:3 if ctx.quick() else len(PROGS)]:
         th = [str(i) for i in range(prog.count('/') + 1)]
         for v in th:
@@ -85,6 +78,9 @@ def gen_schedules(ctx, n):
         out.append((prog, bursty(ctx.rng, th)))
     return out
 
+def contended(cl):
+    return any(' cas ' in l and l.split('exp=')[1].split()[0] != l.rsplit('-> ', 1)[1] for l in cl)
+
 def run(ctx):
     ctx.cov['source_hash'] = source_hash(FILES)
     prove(ctx)
@@ -92,30 +88,16 @@ def run(ctx):
     model = build_model_driver(ctx, 'lfq', 'ExtractLfq.v', 'lfq_driver.ml')
     if impl:
         cases = gen_schedules(ctx, 400 if ctx.quick() else 6000)
-        tail = '012345' * 150
-        ri = run_many([[impl, p, s + tail] for p, s in cases])
-        rm = run_many([[model, p, s + tail] for p, s in cases]) if model else None
-        distinct = set(); ndis = 0; nor = 0
-        for k, (p, s) in enumerate(cases):
-            raw = ri[k][1]; cl = canon_c(raw); key = tuple(cl)
-            nontrivial = any(' cas ' in l and not l.endswith('-> ' + l.split('exp=')[1].split()[0]) for l in cl)  # some failed cas = contention
-            if nontrivial: distinct.add(key)
-            if len(ctx.cov['samples']) < 3 and nontrivial: ctx.cov['samples'].append({'prog': p, 'schedule': s[:80], 'trace_head': cl[:12]})
-            o = oracle(ctx, p, s, cl, raw)
-            if o and nor < 3:
-                nor += 1; ctx.fail('oracle', 'rculfqueue oracle', o, concrete={'scenario': 'scen_lfq', 'prog': p, 'schedule': s + tail, 'verdict': o, 'trace': cl[-40:]})
-            if rm is not None:
-                ml = rm[k][1].splitlines()
-                if cl != ml:
-                    ndis += 1
-                    if ndis <= 2:
-                        d = next((j for j, (a, b) in enumerate(zip(cl, ml)) if a != b), min(len(cl), len(ml)))
-                        ctx.fail('correspondence', 'Lfq.v vs static/rculfqueue.h (step-by-step trace)',
-                                 'prog %s schedule %s...: first difference at step %d: impl "%s" model "%s"' % (p, s[:60], d, cl[d] if d < len(cl) else '<end>', ml[d] if d < len(ml) else '<end>'))
-        ctx.cov['evaluations'] = len(cases); ctx.cov['distinct_nontrivial'] = len(distinct)
-        ctx.cov['traces_validated_against_impl'] = len(cases) - ndis if rm is not None else 0
-        ctx.cov['disagreements'] = ndis
-        ctx.cov['input_distribution'] = {'programs': PROGS, 'parking_sweeps': sum(1 for c in cases if '0' * 0 == '' and len(set(c[1][:3])) == 1), 'cases': len(cases)}
+        corr_schedules(ctx, 'Lfq.v vs static/rculfqueue.h', impl, model, cases, canon_c,
+                       oracle=lambda p, s, cl, raw: oracle(ctx, p, s, cl, raw), nontrivial=contended, tail='012345' * 150, scenario='scen_lfq')
     return finish(ctx, trusted=TRUSTED,
                   rule='schedules = corpus + parking sweeps (each thread frozen after k of its steps while the others complete) + bursty random; '
                        'non-trivial = trace contains at least one failed cmpxchg (contention); distinct = distinct canonical traces')
+
+def replay(ctx, rp):
+    f = rp.get('failing_input') or {}
+    impl = build_scenario(ctx, 'scen_lfq', 'scen_lfq.c')
+    if not impl or not f: print('nothing to replay'); return 2
+    rc, out = run_many([[impl, f['prog'], f['schedule']]])[0]
+    cl = canon_c(out); print('\n'.join(cl[-60:]))
+    o = oracle(ctx, f['prog'], f['schedule'], cl, out); print('verdict:', o or 'no violation'); return 1 if o else 0
